@@ -7,7 +7,7 @@ from props import rwcommon as rc
 ID = "C01"
 PROP_FILE = "props/C01.v"
 COQ_TARGETS = ["props/C01.v"]
-THEOREMS = ["C01_erase_sound", "C01_erase_any", "C01_rw_frag", "C01_rw_frag_certified", "C01_frag_semantics", "C01_fun_semantics", "C01_prog_semantics"]
+THEOREMS = ["C01_erase_sound", "C01_erase_any", "C01_docstrings_kept", "C01_docstrings_erased", "C01_rw_frag", "C01_rw_frag_docstring", "C01_rw_frag_certified", "C01_frag_semantics", "C01_fun_semantics", "C01_prog_semantics"]
 TRUSTED_BASE = [
     "Coq 8.16.1 kernel, vm_compute for the per-program erasure certificates",
     "tools/impl/astexport.py (AST -> Coq term, interning, id canonicalisation), tools/translators/gen_pyast.py + gen_events.py",
@@ -168,13 +168,14 @@ def run(ctx, model_ok, deferred=False, only_deferred=False, n_quick=120, extra_c
         for i, ok in zip(cert_idx, res):
             if ok is True:
                 certs_ok += 1
-            elif ok is False and cert_signature(cases[i]) in listed:
+            elif ok is not None and cert_signature(cases[i]) in listed:
                 pass            # inside the region of a listed known finding: no certificate is expected there
             else:
-                certs_bad.append({"case": {k: cases[i][k] for k in ("src", "events", "guards")}, "coqc_failed": ok is None})
+                certs_bad.append({"case": {k: cases[i][k] for k in ("src", "events", "guards", "exempt_events", "silence") if k in cases[i]},
+                                  "coqc_failed": ok is None, "rejected_by": {"erase": "check_erase", "docs": "check_docs"}.get(ok)})
         if certs_bad:
-            ctx.tie_broken("certificate", "erase (rewriter output) <> norm source on %d of %d programs" % (len(certs_bad), len(cert_rows)),
-                           json.dumps(certs_bad[0])[-3000:])
+            ctx.tie_broken("certificate", "erase (rewriter output) <> norm source, or a docstring position not kept, on %d of %d programs"
+                           % (len(certs_bad), len(cert_rows)), json.dumps(certs_bad[0])[-3000:])
     hist = {}
     for c in cases:
         for e in c["events"]:
